@@ -256,6 +256,43 @@ func c03b(c *Ctx) {
 			stepOK = true
 		}
 	}
+	// ... up to the last case: the scan goes on while j < len(Cases), and stops for no other
+	// reason than having found a body (a scan that gives up after a few cases, or one case early,
+	// leaves the cases in front without a destination)
+	{
+		jh := jPhi.Block()
+		okBound := false
+		got := ""
+		if ifi, isIf := jh.Instrs[len(jh.Instrs)-1].(*ssa.If); isIf {
+			got = verRe.ReplaceAllString(c.term(fn, ifi.Cond), "")
+			jt := verRe.ReplaceAllString(c.term(fn, jPhi), "")
+			okBound = got == "("+jt+" < builtin:len($0.Cases))"
+		}
+		// (and no test beside it ends the scan: every other way out of the scan loop is the one
+		// taken after a body was found)
+		body := loopBody(jh)
+		for _, b := range fn.Blocks {
+			if !body[b] || b == jh {
+				continue
+			}
+			for _, sc := range b.Succs {
+				if body[sc] {
+					continue
+				}
+				found := false
+				for _, l := range c.edgeMust(fn, b, sc) {
+					if strings.HasPrefix(l, "+(0 < builtin:len(") && strings.Contains(l, ".Body.Statements") {
+						found = true
+					}
+				}
+				if !found {
+					okBound = false
+					got += "; also left at " + c.nearPos(b.Instrs[len(b.Instrs)-1])
+				}
+			}
+		}
+		c.Check(okBound, name+"/scan/to-the-last-case", c.W.Pos(jPhi.Pos()), "the scan for a shared body looks at every later case", "the forward scan continues under "+pretty(got)+", expected exactly j < len(Cases): a body further down would not be found and the cases in front of it get no destination")
+	}
 	c.Check(startOK && stepOK, name+"/scan/from-i+1", c.W.Pos(jPhi.Pos()), "the scan for a shared body starts at the next case and advances by one", "the forward scan does not start at i+1 / advance by one (edges: "+pretty(fmt.Sprint(edgeTerms(c, fn, jPhi)))+")")
 	// stops at first hit: from the shared-body allocation the scan header is not re-entered within the same outer iteration
 	outer := loopHeaders(fn)[jPhi.Block()]
@@ -579,6 +616,13 @@ func c03d(c *Ctx) {
 				}
 			}
 			c.Check(exits == 0, name+"/case-loop-complete", c.W.Pos(caseLine.call.Pos()), "no case entry is skipped (no break/return inside the loop)", "the loop over the cases can be left early")
+			// ... nor passed over: every turn writes its case line (a `continue` for a case whose
+			// body happens to come next loses that case's value)
+			if wsk, skip := loopSkip(fn, caseLine.call.(ssa.Instruction)); skip {
+				c.Bad(name+"/every-case-rendered", c.W.Pos(caseLine.call.Pos()), "a turn of the loop over the cases can pass ("+c.nearPos(wsk)+") without writing the case line: that value would no longer be tested")
+			} else {
+				c.OK(name+"/every-case-rendered", c.W.Pos(caseLine.call.Pos()), "every turn writes its case line")
+			}
 		}
 	} else {
 		c.Bad(name+"/case-line-operands", c.W.Pos(caseLine.call.Pos()), "case line does not have 3 operands")
@@ -593,6 +637,30 @@ func c03d(c *Ctx) {
 // emitter the destination registered for a case is computed in the iteration of that case: it
 // does not flow in from an earlier iteration through a variable that is not reset.
 func c03e(c *Ctx) {
+	// a case is the default exactly when it was written as `default`: wherever the parser sets
+	// IsDefault it sets it to a constant, true in the arm of the `default` keyword and nowhere else
+	// (a default demoted to an ordinary case for any reason is emitted as `case , …` with no value)
+	if fn0 := c.Fn("parser.Parser.parseSwitchStatement"); fn0 != nil {
+		n := 0
+		for _, u := range c.unitOf(fn0) {
+			for _, st := range storesToField(u.fn, "ast", "SwitchCase", "IsDefault") {
+				n++
+				k, isC := st.Val.(*ssa.Const)
+				okC := isC && k.Value != nil
+				if okC && k.Value.String() == "true" {
+					inDefault := false
+					for _, l := range c.mustLits(u.fn, st.Block()) {
+						if strings.HasPrefix(l, "+($0.curToken") && strings.HasSuffix(l, `.Type == "DEFAULT")`) {
+							inDefault = true
+						}
+					}
+					okC = inDefault || u.fn != fn0
+				}
+				c.Check(okC, fmt.Sprintf("parseSwitchStatement/is-default-is-the-keyword#%d", n), c.W.Pos(st.Pos()), "IsDefault is the constant true in the default arm", "IsDefault is set to "+pretty(c.term(u.fn, st.Val))+" (or outside the default arm): whether a case is the default must depend on the keyword alone")
+			}
+		}
+		c.Check(n >= 1, "parseSwitchStatement/is-default-is-the-keyword", c.W.FuncPos(fn0), "the default case is marked", "no store of SwitchCase.IsDefault found in the switch parser")
+	}
 	if fn := c.Fn("parser.Parser.parseSwitchStatement"); fn != nil {
 		psb := c.Fn("parser.Parser.parseSwitchBlockStatement")
 		var appends []*ssa.Call
